@@ -7,7 +7,7 @@ PROPS = {
         decided="necessary conditions for incremental = from-scratch: rule/slot tables, def-before-use in the schedule, class-level reachability for link edits, value-level provenance completeness (per branch) for numeric edits, ordering guards of the three chain builders, single entry point for edits, no inherited list mutator, no-op skip only on equality, injective ids (values and objects), operator summaries valid on every path, snapshot order of the before/after totals, link bookkeeping written only by its owners, the system looked up on every object of a recomputation chain, memo tables keyed completely",
         not_decided="the numeric equality edited-vs-rebuilt; instance-level reachability through pre-change links"),
     "C02": dict(
-        rules=["R-AGG", "R-DEG", "R-ACCUM", "R-LEAK", "R-CHAIN:system", "R-ONCE"],
+        rules=["R-AGG", "R-DEG", "R-ACCUM", "R-LEAK", "R-CHAIN:system", "R-ONCE", "R-PROV:footprint"],
         decided="structure of the aggregation: the four category dicts agree on keys, collections, attributes and deduplication; every footprint-bearing class is covered; footprint = energy x intensity (degree rows); accumulator discipline and no loop variable read after its loop in model code; the system (whose stored total is the only aggregate that is not recomputed on the fly) is appended to every recomputation chain, looked up on every object of the chain",
         not_decided="finiteness and sign of the values"),
     "C03": dict(
@@ -15,7 +15,7 @@ PROPS = {
         decided="index shift (freq=) not positional shift, zero-fill on series addition/multiplication, per-pattern writer/reader collection agreement, linearity of load quantities in the traffic series, delay increased after a step's jobs are placed and steps enumerated from the uj_steps list itself (order and multiplicity), accumulators only added to (never overwritten, compounded or scaled inside the loop), empty-value shortcuts taken only on emptiness / == 0 tests (never on an ordering test that would swallow negative data_stored), a collection that is summed over holds each object once (navigation properties that concatenate their containers' lists are de-duplicated)",
         not_decided="the conservation identities themselves (floor/ceil hour arithmetic, totals)"),
     "C04": dict(
-        rules=["R-RAW2", "R-BOUND", "R-CUMUL"],
+        rules=["R-RAW2", "R-BOUND", "R-CUMUL", "R-WRITE:infra"],
         decided="two-series raw array operations are aligned and unit-fixed (no positional arithmetic between two series); order-domain bounds nb >= raw, active <= nb; a fixed instance count is compared with the peak need before use; cumulative storage = running sum with the base need added first, checked before it is installed; stored data expires after its storage duration rounded up (never down) to whole hours",
         not_decided="every >= inequality numerically; float cancellation in the storage negativity check"),
     "C05": dict(
@@ -27,7 +27,7 @@ PROPS = {
         decided="twin pairing lists are built in lockstep and every pair is linked; rejections (naive date, outside period) precede any mutation; the filter keeps hours >= the date; naive local-time indexes are localised with the pattern's zone; no aware date is re-labelled with .replace(tzinfo=); no normal exit skips the modelled-period test; a cached localised index is keyed by its time zone too",
         not_decided="equality with the really-updated model; 'no hour before the date'"),
     "C07": dict(
-        rules=["R-OPREC", "R-OPPAR", "R-INPLACE", "R-LABEL", "R-SUMMARY", "R-PAREN", "R-VALUESTORE", "R-WRITE", "R-PARENT-USED", "R-CACHE:explainable", "R-CHAIN"],
+        rules=["R-OPREC", "R-OPPAR", "R-INPLACE", "R-LABEL", "R-SUMMARY", "R-PAREN", "R-VALUESTORE", "R-WRITE", "R-PARENT-USED", "R-CACHE:explainable", "R-CHAIN", "R-PUREVIEW"],
         decided="recorded operator and operand order = computed ones; parents recorded on every return path; each recorded parent is used by the value; no unrecorded in-place numeric change and no store into .value from outside; every assigned result labelled; explain() parenthesises wherever precedence requires it",
         not_decided="numeric re-evaluation of each node"),
     "C08": dict(
@@ -35,7 +35,7 @@ PROPS = {
         decided="completeness (every dependency is a transitive recorded ancestor, per branch), both-ends bookkeeping has single writers, paired unconditional loops and detach-before-attach, dedup ids injective, attribute graph acyclic at class level, ordering guards of attr_updates_chain and of the de-duplications (keep last, at the last position), every path of the attach primitive registers / deregisters",
         not_decided="correctness of attr_updates_chain on arbitrary graphs"),
     "C09": dict(
-        rules=["R-COMM", "R-FILL", "R-PURE", "R-RAW2", "R-OPREC", "R-UNITS", "R-DERIVED", "R-CACHE:explainable", "R-SHIFT"],
+        rules=["R-COMM", "R-FILL", "R-PURE", "R-RAW2", "R-OPREC", "R-UNITS", "R-DERIVED", "R-CACHE:explainable", "R-SHIFT", "R-MAG:operators"],
         decided="operand-kind dispatch symmetry of + and *, empty neutral/absorbing, zero-fill, operators do not mutate operands, no positional arithmetic between two series, custom resource units keep their own dimension, derived accessors (unit) are never cached, the shift operation moves the labels of the frame it is given (no regenerated contiguous index)",
         not_decided="the algebraic laws over values (pint/pandas, trusted)"),
     "C10": dict(
@@ -67,7 +67,7 @@ PROPS = {
         decided="list-API exhaustiveness, attach/detach pairing per mutator, shadow-copy/real-op agreement, receiver typestate after a mutator, reverse look-ups derived not stored, single append-only writers of link bookkeeping, no-op skip only on equality (and list equality not overridden by a set / length comparison), unique object ids, delete guard and one-system check ordering and reachability from the edit path",
         not_decided="list-content equivalence with Python lists for every operation sequence"),
     "C17": dict(
-        rules=["R-CALC", "R-PROV", "R-ORDER", "R-PLACEHOLDER", "R-SIB-JOB", "R-SERV", "R-DEG", "R-REACH", "R-PARENT-USED", "R-CACHE:model", "R-WRITE"],
+        rules=["R-CALC", "R-PROV", "R-ORDER", "R-PLACEHOLDER", "R-SIB-JOB", "R-SERV", "R-DEG", "R-REACH", "R-PARENT-USED", "R-CACHE:model", "R-WRITE:builder"],
         decided="builder rule tables, provenance (per branch) and schedule; constant placeholders are calculated; each recorded parent of a looked-up value is used by the lookup; Job/ServiceJob agree; server accounts for services; a class that looks up its holders' holders is named by those holders' own dependents list (a freshly linked service reaches its server); the schedule is checked against whatever class list the chain optimiser ranks by; the two stated builder formulas have the stated shape",
         not_decided="numeric equality builder-model vs plain-model"),
     "C18": dict(
